@@ -1,8 +1,10 @@
 ---- MODULE MC_Crdt ----
-EXTENDS Crdt
+EXTENDS Crdt, CrdtJson
 N2 == <<"n1", "n2">>
 N3 == <<"n1", "n2", "n3">>
 CONSTANTS MaxUpd, MaxDeliver, MaxMerge, MaxCompact
 Bound == g.n <= MaxUpd /\ cnt.d <= MaxDeliver /\ cnt.m <= MaxMerge /\ cnt.c <= MaxCompact
+\* C38 "merging never shrinks information", in the information order of each type (CrdtJson.Grows)
+Growing == \A a, b \in Pool : Grows(ty, C(a), C(b), C(M(a, b))) /\ Grows(ty, C(b), C(a), C(M(a, b)))
 View == <<ty, st, net, lts, g, cnt>>
 ====
